@@ -6,6 +6,7 @@ models / clients / protocols / mocks, drives operations over a recording httpx.M
 job = {"root": <project root>, "packages": [{"pkg": "a.b.client", "core": "a.b.core"}], "actions": [...], ...}
 """
 import asyncio
+import base64
 import dataclasses
 import datetime as _dt
 import enum
@@ -518,7 +519,11 @@ def coerce(value, t, structure):
         if t is _dt.datetime and isinstance(value, str):
             return _dt.datetime.fromisoformat(value.replace("Z", "+00:00"))
         if t is bytes and isinstance(value, str):
-            return value.encode()
+            # inside JSON documents binary data travels as base64 text (raw bodies are passed as hex elsewhere)
+            try:
+                return base64.b64decode(value, validate=True)
+            except Exception:  # noqa
+                return value.encode()
         if t is _uuid.UUID and isinstance(value, str):
             return _uuid.UUID(value)
         if t is float and isinstance(value, int) and not isinstance(value, bool):
